@@ -11,6 +11,7 @@ case "$P" in
   -R:*) git -C "$WT" revert --no-commit "${P#-R:}" >/dev/null 2>&1 || { echo "revert failed"; } ;;
   *) git -C "$WT" apply "$P" || { echo "APPLY FAILED $P"; git -C /repo worktree remove --force "$WT"; exit 3; } ;;
 esac
+cp /verif/known_findings.json /tmp/seedtest-out/ 2>/dev/null
 for prop in "$@"; do
   out=$(VERIF_REPO="$WT" VERIF_DIR=/tmp/seedtest-out /verif/bin/vcheck -prop "$prop" -tier quick 2>&1)
   rc=$?
